@@ -46,22 +46,35 @@ def make_replay(pid, case, sched, outcome, P, info, minimised, log=None):
             "fired": sim.fired if sim is not None else []}
 
 
+def fresh_replay(path):
+    """Replay a file in a fresh interpreter: True if it prints a VIOLATION (exit 1)."""
+    import subprocess
+    env = determinism.child_env()
+    try:
+        r = subprocess.run([sys.executable, "-c", "import sys; from dst.main import main; sys.exit(main())",
+                            "C00", "--replay", path], capture_output=True, text=True, env=env,
+                           cwd=os.path.dirname(os.path.dirname(os.path.abspath(__file__))), timeout=900)
+    except Exception:
+        return False
+    return r.returncode == 1 and "VIOLATION" in r.stdout
+
+
 def report_violation(pid, P, case, sched, outcome, info, outdir, tag, do_min=True, prelude=()):
     cls = outcome["violation"]["class"]
     orig = make_replay(pid, case, sched, outcome, P, info, False)
-    if prelude:
-        # does the failure need the calls this process made before?  re-run the case alone first
-        again = run_case(case, {k: v for k, v in sched.items() if k != "replay"}, P.compare)
-        if again["status"] == "violation" and again["violation"]["class"] == cls:
-            prelude = ()
-        else:
-            orig["prelude"] = [{"case": c, "sched": {k: v for k, v in s.items() if k != "replay"}} for c, s in prelude]
-            orig["note"] = ("the violation did not reproduce when the case was re-run alone in the same process: it "
-                            "depends on the cases executed before it, which are recorded as 'prelude' and replayed first")
-            do_min = False
     os.makedirs(outdir, exist_ok=True)
     p_orig = os.path.join(outdir, "%s-%s.orig.json" % (pid, tag))
     util.dump_file(p_orig, orig)
+    if prelude and not fresh_replay(p_orig):
+        # the case alone does not fail in a fresh interpreter: the violation needs what this process
+        # executed before it.  Record those cases as a prelude (replayed first); no minimisation.
+        orig["prelude"] = [{"case": c, "sched": {k: v for k, v in s.items() if k != "replay"}} for c, s in prelude]
+        orig["note"] = ("history-dependent: the case alone does not fail in a fresh interpreter; the cases this "
+                        "process executed before it are recorded as 'prelude' and replayed first")
+        util.dump_file(p_orig, orig)
+        orig["prelude_reproduces_in_fresh_interpreter"] = fresh_replay(p_orig)
+        util.dump_file(p_orig, orig)
+        return p_orig, orig
     path = p_orig
     if do_min:
         def fails(c, s):
